@@ -21,6 +21,7 @@ func main() {
 	tier := flag.String("tier", "quick", "quick|thorough")
 	repo := flag.String("repo", "/repo", "repository working tree")
 	verif := flag.String("verif", "/verif", "verification directory (evidence, known findings)")
+	outDir := flag.String("out", "", "directory that receives evidence/ (default: the -verif directory)")
 	dump := flag.String("dump", "", "debug: dump SSA of functions whose name contains this")
 	mutant := flag.String("mutant", "", "selftest worker: run one overlay mutant by id and print its result")
 	flag.Parse()
@@ -60,6 +61,7 @@ func main() {
 	exit := 0
 	for _, id := range props {
 		r := rep.New(id, *tier, *verif, t0)
+		r.OutDir = *outDir
 		if err != nil {
 			r.Fatal("LOAD-FAILED %v", err)
 			if r.Finish() != 0 {
